@@ -34,7 +34,7 @@ HARNESSES = {
     "host": dict(pkg="flow/agent/multiagent/host", test="^TestVerifHostConc$", marker="VERIF-HOSTCONC cases=",
                  overlay={"flow/agent/multiagent/host/zz_verif_hostconc_test.go": os.path.join(H, "flow", "agent", "multiagent", "host", "zz_verif_hostconc_test.go")}),
 }
-A_ALL = dict(NC=2, Scripts=[0, 10, 11, 20, 21, 22], StateMode="percall", ErrVar="repaired", RdVar="state")
+A_ALL = dict(NC=2, Scripts=[0, 10, 11, 20, 21, 22], StateMode="percall", ErrVar="repaired", RdVar="state", InputMode="own", HistMode="copy")
 MALFORMED = ("unknown-observation", "line-outside-a-case", "case-not-closed-by-an-end-line", "trace-ends-inside-a-case")
 
 
@@ -49,7 +49,10 @@ def model_check(tier):
     invs = ["RuleOK", "Closed", "NoRace"]
     plan = [("nc2-repaired", a_consts(), None),
             ("nc3-repaired", a_consts(NC=3, Scripts=[0, 11, 21] if tier == "quick" else A_ALL["Scripts"]), None),
-            ("nc2-as-coded", a_consts(ErrVar="ascoded"), "NoRace"),
+            ("nc2-shared-input-slice", a_consts(InputMode="sharedcap"), None),
+            ("nc2-err-in-constructor-variable", a_consts(ErrVar="ascoded"), "NoRace"),
+            ("nc2-history-adopts-shared-input", a_consts(InputMode="sharedcap", HistMode="adopt"), "RuleOK"),
+            ("nc2-history-adopts-own-input", a_consts(HistMode="adopt"), "RuleOK"),
             ("nc2-state-once-at-compile", a_consts(StateMode="shared"), "RuleOK"),
             ("nc2-rdid-in-constructor-variable", a_consts(RdVar="ctor"), "RuleOK")]
     states = trans = 0
@@ -68,9 +71,10 @@ def model_check(tier):
                      "wall_s": round(run.wall_s, 1), "expected_violation": expect})
         log("  model AgentIso %-34s %7d distinct states, %8d generated, depth %2d, %5.1fs%s" % (
             name, run.distinct, run.generated, run.depth, run.wall_s, ("  (violates %s as expected)" % expect) if expect else ""))
-    finding = ("spec/AgentIso.tla with ErrVar = \"ascoded\" (react.go:257/266: the per-call convert closure of buildReturnDirectly assigns and "
-               "reads the constructor's named result err) violates NoRace with 2 callers; with ErrVar = \"repaired\" (err := local to "
-               "the closure, fixes/D10-react-return-directly-race.diff) RuleOK, Closed and NoRace hold for 2 and 3 callers")
+    finding = ("spec/AgentIso.tla with ErrVar = \"ascoded\" (D10: the per-call convert closure of buildReturnDirectly assigned and read the "
+               "constructor's named result err, react.go:257/266 before the repair) violates NoRace with 2 callers; with ErrVar = \"repaired\" "
+               "(err := local to the closure, fixes/D10-react-return-directly-race.diff) RuleOK, Closed and NoRace hold for 2 and 3 callers, also "
+               "when all callers pass one input slice with spare capacity")
     return states, trans, runs, finding
 
 
